@@ -8,9 +8,10 @@
 // the tie as broken while the differential searches for a failing input):
 //   x := e | x = e | x, y = e1, e2 | xs[i] = e (xs ranged over, i its index) | return e
 //   if c { … } [else { … }] | for i := range xs { … } | for i, v := range xs | for _, v := range xs
-//   continue | strings.{ToLower,TrimSpace,HasPrefix,HasSuffix,Contains,ContainsAny,Join}
+//   continue | strings.{ToLower,TrimSpace,HasPrefix,HasSuffix,Contains,ContainsAny,Join,TrimSuffix}
 //   strings.Split / strings.Count with a one-character literal | len | == != && || ! < <= > >=
-//   calls of other translated functions of the package
+//   calls of other translated functions of the package; calls of package functions declared as
+//   `externs` of the target become parameters
 package main
 
 import (
@@ -25,9 +26,16 @@ import (
 // functions translated, in dependency order
 // (the stub keeps the driver compiling when a function cannot be translated any more: it is
 // never run — `translated` does not list it — and no tie can be proved about it)
-var fnTargets = []struct{ name, stub string }{
-	{"SubjectQualifiesForCert", "def SubjectQualifiesForCert (_ : Str) : Bool := false"},
-	{"MatchWildcard", "def MatchWildcard (_ _ : Str) : Bool := false"},
+// externs: calls of package functions that are NOT translated become parameters of the
+// definition (name, Lean type), in this order — what they do is then a hypothesis of the tie.
+var fnTargets = []struct {
+	name, stub string
+	externs    [][2]string
+}{
+	{"SubjectQualifiesForCert", "def SubjectQualifiesForCert (_ : Str) : Bool := false", nil},
+	{"MatchWildcard", "def MatchWildcard (_ _ : Str) : Bool := false", nil},
+	{"SubjectIsInternal", "def SubjectIsInternal (_ : Str → Str) (_ : Str → Bool) (_ : Str) : Bool := false",
+		[][2]string{{"hostOnly", "Str → Str"}, {"isInternalIP", "Str → Bool"}}},
 }
 
 func init() { generators["Fn"] = genFn }
@@ -44,6 +52,7 @@ type fnCtx struct {
 	ranged  map[string]string // index variable -> ranged slice variable (for xs[i])
 	fresh   int
 	targets map[string]bool
+	externs map[string]bool
 }
 
 func genFn(p *pkgInfo, l *leanFile) {
@@ -58,7 +67,7 @@ func genFn(p *pkgInfo, l *leanFile) {
 			l.pf("-- %s: not found in the source\n%s\n\n", name, t.stub)
 			continue
 		}
-		txt, err := trFunc(p, fd, tg)
+		txt, err := trFunc(p, fd, tg, t.externs)
 		if err != "" {
 			miss("translation of " + name + ": " + err)
 			l.pf("-- %s: NOT TRANSLATED (%s)\n%s\n\n", name, err, t.stub)
@@ -92,7 +101,7 @@ func leanType(e ast.Expr) string {
 	return ""
 }
 
-func trFunc(p *pkgInfo, fd *ast.FuncDecl, tg map[string]bool) (out string, errMsg string) {
+func trFunc(p *pkgInfo, fd *ast.FuncDecl, tg map[string]bool, externs [][2]string) (out string, errMsg string) {
 	defer func() {
 		if r := recover(); r != nil {
 			if fe, ok := r.(fnErr); ok {
@@ -105,8 +114,12 @@ func trFunc(p *pkgInfo, fd *ast.FuncDecl, tg map[string]bool) (out string, errMs
 	if fd.Type.Results == nil || len(fd.Type.Results.List) != 1 || len(fd.Type.Results.List[0].Names) > 0 {
 		fnFail("exactly one unnamed result expected")
 	}
-	c := &fnCtx{p: p, retTy: leanType(fd.Type.Results.List[0].Type), ranged: map[string]string{}, targets: tg}
+	c := &fnCtx{p: p, retTy: leanType(fd.Type.Results.List[0].Type), ranged: map[string]string{}, targets: tg, externs: map[string]bool{}}
 	var params []string
+	for _, e := range externs {
+		c.externs[e[0]] = true
+		params = append(params, fmt.Sprintf("(%s : %s)", e[0], e[1]))
+	}
 	for _, f := range fd.Type.Params.List {
 		for _, n := range f.Names {
 			params = append(params, fmt.Sprintf("(%s : %s)", n.Name, leanType(f.Type)))
@@ -306,7 +319,7 @@ func (c *fnCtx) stmts(list []ast.Stmt, ind string) string {
 			st = append(st, v)
 		}
 		sort.Strings(st)
-		inner := &fnCtx{p: c.p, retTy: c.retTy, inLoop: true, state: st, ranged: map[string]string{}, fresh: c.fresh, targets: c.targets}
+		inner := &fnCtx{p: c.p, retTy: c.retTy, inLoop: true, state: st, ranged: map[string]string{}, fresh: c.fresh, targets: c.targets, externs: c.externs}
 		for k, v := range c.ranged {
 			inner.ranged[k] = v
 		}
@@ -450,7 +463,7 @@ func (c *fnCtx) expr(e ast.Expr) string {
 			if f.Name == "len" && len(args) == 1 {
 				return "(Go.len " + args[0] + ")"
 			}
-			if c.targets[f.Name] {
+			if c.targets[f.Name] || c.externs[f.Name] {
 				return "(" + f.Name + " " + strings.Join(args, " ") + ")"
 			}
 			fnFail("call of %s not supported", f.Name)
@@ -464,7 +477,7 @@ func (c *fnCtx) expr(e ast.Expr) string {
 				if len(args) == 1 {
 					return "(Go.strings_" + f.Sel.Name + " " + args[0] + ")"
 				}
-			case "HasPrefix", "HasSuffix", "Contains", "ContainsAny", "Join":
+			case "HasPrefix", "HasSuffix", "Contains", "ContainsAny", "Join", "TrimSuffix":
 				if len(args) == 2 {
 					return "(Go.strings_" + f.Sel.Name + " " + args[0] + " " + args[1] + ")"
 				}
